@@ -201,6 +201,9 @@ type c01Case struct {
 	Transport string        `json:"transport"`
 	UseListen bool          `json:"use_listen"`
 	Ifaces    []string      `json:"ifaces,omitempty"`
+	// LaterIfaces (C04): interfaces that were NOT registered during this round but are registered afterwards on the
+	// same object; a replay runs the round, registers them during a pause in serving, and runs the round again
+	LaterIfaces []string `json:"later_ifaces,omitempty"`
 	Conns     []*ConnScript `json:"conns"`
 }
 
@@ -449,6 +452,13 @@ func replayRound(r *fw.Run, raw json.RawMessage, prop string) {
 	for k := 0; k < 20; k++ {
 		if c01Round(r, g, prop, &cc, true) > 0 {
 			break
+		}
+		if len(cc.LaterIfaces) > 0 && k == 2 {
+			if err := g.Restart(cc.LaterIfaces); err != nil {
+				r.Violation(prop+" register-and-serve-again", err.Error(), cc.LaterIfaces)
+				break
+			}
+			cc.LaterIfaces = nil
 		}
 	}
 	for _, cs := range cc.Conns {
